@@ -147,6 +147,7 @@ def check(prog: Program, tier: str) -> Result:
 
     _check_counts(prog, res)
     _check_primitives(prog, res)
+    _check_shapes(prog, res)
     return res
 
 
@@ -545,6 +546,129 @@ def vk(v):
     return v.key() if hasattr(v, "key") else str(v)
 
 
+def _shape_signature(prog: Program, q: str):
+    """{(x, y, loop lo, loop hi)} of every coordinate tuple a generator appends (loop variable named 'k')"""
+    fi = prog.func(q)
+    eng = Engine(prog, fi, Hooks())
+    st = State()
+    for p in fi.params():
+        st.env[p] = Rat.atom(p)
+    parents = {}
+    for n in ast.walk(fi.node):
+        for c in ast.iter_child_nodes(n):
+            parents[id(c)] = n
+    # straight-line locals (x_loc, y_loc, bix ...)
+    for stmt in ast.walk(fi.node):
+        if isinstance(stmt, ast.Assign) and len(stmt.targets) == 1 and isinstance(stmt.targets[0], ast.Name) and not isinstance(stmt.value, (ast.List, ast.Call)):
+            try:
+                st.env[stmt.targets[0].id] = eng.eval(stmt.value, st)
+            except Exception:
+                pass
+    sig = set()
+    for n in ast.walk(fi.node):
+        if isinstance(n, ast.Call) and isinstance(n.func, ast.Attribute) and n.func.attr == "append" and len(n.args) == 1 and isinstance(n.args[0], ast.Tuple) and len(n.args[0].elts) == 2:
+            loop = parents.get(id(n))
+            while loop is not None and not isinstance(loop, ast.For):
+                loop = parents.get(id(loop))
+            if loop is None or not isinstance(loop.target, ast.Name) or not (isinstance(loop.iter, ast.Call) and attr_chain(loop.iter.func) == "range"):
+                raise AnalysisError(f"{q}: coordinate appended outside a range loop")
+            outer = parents.get(id(loop))
+            while outer is not None and not isinstance(outer, (ast.For, ast.FunctionDef)):
+                outer = parents.get(id(outer))
+            if isinstance(outer, ast.For):
+                raise AnalysisError(f"{q}: nested loops - handled by the rectangle() rule only")
+            s2 = st.fork()
+            s2.env[loop.target.id] = Rat.atom("k")
+            x, y = eng.eval(n.args[0].elts[0], s2), eng.eval(n.args[0].elts[1], s2)
+            a = loop.iter.args
+            lo = eng.eval(a[0], s2) if len(a) == 2 else Rat.const(0)
+            hi = eng.eval(a[-1], s2)
+            if not all(isinstance(v, Rat) for v in (x, y, lo, hi)):
+                raise AnalysisError(f"{q}: coordinate expression not understood")
+            sig.add((x.key(), y.key(), lo.key(), hi.key()))
+    return fi, sig
+
+
+def _check_shapes(prog: Program, res: Result):
+    k = Rat.atom("k")
+    zero, one = Rat.const(0), Rat.const(1)
+
+    def A(n):
+        return Rat.atom(n)
+
+    def S(*rows):
+        return {(x.key(), y.key(), lo.key(), hi.key()) for x, y, lo, hi in rows}
+
+    want = {
+        "l_shape": S((k * A("b_x"), zero, zero, A("n_x")), (zero, k * A("b_y"), one, A("n_y"))),
+        "lop_u": S((k * A("b_x"), zero, zero, A("n_x")), (zero, k * A("b_y"), one, A("n_y_1")), ((A("n_x") - one) * A("b_x"), k * A("b_y"), one, A("n_y_2"))),
+        "c_shape": S((k * A("b_x"), zero, zero, A("n_x_1")), (zero, k * A("b_y"), one, A("n_y")), ((A("n_x_1") - one) * A("b_x"), k * A("b_y"), one, A("n_y")),
+                     (k * A("b_x"), (A("n_y") - one) * A("b_y"), one, A("n_x_2") + one)),
+        "open_rectangle": S((k * A("spacing_x"), zero, zero, A("num_bh_x")), (zero, k * A("spacing_y"), one, A("num_bh_y") - one),
+                            ((A("num_bh_x") - one) * A("spacing_x"), k * A("spacing_y"), one, A("num_bh_y") - one),
+                            (k * A("spacing_x"), (A("num_bh_y") - one) * A("spacing_y"), zero, A("num_bh_x"))),
+    }
+    for name, w in want.items():
+        q = f"{COORD}.{name}"
+        fi, sig = _shape_signature(prog, q)
+        res.analysed(q)
+        ok = sig == w
+        res.ob("R03.5", f"{name}(): the appended points are exactly the documented outline ({len(w)} runs of points)", ok, prog.loc(fi, fi.node))
+        if not ok:
+            extra = sorted(sig - w)[:2]
+            miss = sorted(w - sig)[:2]
+            res.violation("R03.5", f"shape|{name}|{extra}|{miss}", prog.loc(fi, fi.node), q,
+                          f"{name}() no longer places its boreholes on the documented outline: unexpected runs (x, y, from, to) {extra}, missing {miss} "
+                          f"(boreholes beyond the outline, duplicated corners or gaps)")
+    # open_rectangle falls back to the full rectangle for thin fields, under the right guard
+    q = f"{COORD}.open_rectangle"
+    fi = prog.func(q)
+    ifs = [n for n in fi.node.body if isinstance(n, ast.If)]
+    ok = False
+    if len(ifs) == 1:
+        t = ast.unparse(ifs[0].test).replace(" ", "")
+        call = [c for c in ast.walk(ast.Module(body=ifs[0].orelse, type_ignores=[])) if isinstance(c, ast.Call) and attr_chain(c.func) == "rectangle"]
+        ok = t in ("num_bh_x>2andnum_bh_y>2", "num_bh_y>2andnum_bh_x>2") and len(call) == 1 and [ast.unparse(a) for a in call[0].args] == ["num_bh_x", "num_bh_y", "spacing_x", "spacing_y"]
+    res.ob("R03.5", "open_rectangle(): full rectangle when a side has fewer than three rows, perimeter otherwise", ok, prog.loc(fi, fi.node))
+    if not ok:
+        res.violation("R03.5", "open-rectangle-guard", prog.loc(fi, fi.node), q, "open_rectangle() no longer switches between perimeter (both sides > 2 rows) and the full rectangle")
+    # zoned rectangle = perimeter + evenly inset interior grid
+    q = f"{COORD}.zoned_rectangle"
+    fi = prog.func(q)
+    res.analysed(q)
+    eng = Engine(prog, fi, Hooks())
+    st = State()
+    for p in fi.params():
+        st.env[p] = Rat.atom(p)
+    for stmt in fi.node.body:
+        if isinstance(stmt, ast.Assign) and isinstance(stmt.targets[0], ast.Name) and isinstance(stmt.value, ast.BinOp):
+            st.env[stmt.targets[0].id] = eng.eval(stmt.value, st)
+    ext = [c for c in ast.walk(fi.node) if isinstance(c, ast.Call) and isinstance(c.func, ast.Attribute) and c.func.attr == "extend" and c.args and isinstance(c.args[0], ast.Call)]
+    parts = {attr_chain(c.args[0].func): c.args[0] for c in ext}
+    ok = set(parts) == {"open_rectangle", "rectangle"}
+    if ok:
+        o, r = parts["open_rectangle"], parts["rectangle"]
+        oa = [eng.eval(a, st) for a in o.args]
+        ra = [eng.eval(a, st) for a in r.args]
+        kw = {k_.arg: eng.eval(k_.value, st) for k_ in r.keywords}
+        bix = (A("n_x") - one) * A("b_x") / (A("n_ix") + one)
+        biy = (A("n_y") - one) * A("b_y") / (A("n_it") + one)
+        org = kw.get("origin")
+        ok = ([vk(a) for a in oa] == ["n_x", "n_y", "b_x", "b_y"] and len(ra) == 4 and vk(ra[0]) == "n_ix" and vk(ra[1]) == "n_it"
+              and isinstance(ra[2], Rat) and ra[2].equals(bix) and isinstance(ra[3], Rat) and ra[3].equals(biy)
+              and isinstance(org, Seq) and len(org.items) == 2 and isinstance(org.items[0], Rat) and org.items[0].equals(bix) and org.items[1].equals(biy))
+    res.ob("R03.5", "zoned_rectangle(): perimeter of the n_x x n_y grid plus an n_ix x n_it interior grid inset by its own spacing (n-1) b / (n_i + 1)", ok, prog.loc(fi, fi.node))
+    if not ok:
+        res.violation("R03.5", "zoned-rectangle", prog.loc(fi, fi.node), q,
+                      "zoned_rectangle() no longer combines open_rectangle(n_x, n_y, b_x, b_y) with rectangle(n_ix, n_it, bix, biy, origin=(bix, biy)), bix = (n_x-1) b_x / (n_ix+1): interior boreholes can coincide with the perimeter or leave the land")
+    guards = [n for n in fi.node.body if isinstance(n, ast.If) and any(isinstance(b, ast.Raise) for b in n.body)]
+    gt = sorted(ast.unparse(g.test).replace(" ", "").replace("(", "").replace(")", "") for g in guards)
+    ok = gt == ["n_it>n_y-2", "n_ix>n_x-2"]
+    res.ob("R03.5", f"zoned_rectangle(): refuses more interior rows than fit strictly inside the perimeter ({gt})", ok, prog.loc(fi, fi.node))
+    if not ok:
+        res.violation("R03.5", f"zoned-guards|{gt}", prog.loc(fi, fi.node), q, f"the interior-row guards of zoned_rectangle are {gt} instead of n_ix > n_x - 2 and n_it > n_y - 2")
+
+
 VARIANTS = [
     Variant("rectangular: transposition of the main field deleted", "break",
             [(DOM, """                print(f"{num_borehole}\\t{n_2}\\t{b}\\t{b}")
@@ -594,6 +718,10 @@ VARIANTS = [
         z = transpose_coordinates(z)
     _zoned_rectangle_domain.append(z)""", """    z = zoned_rectangle(n_1, n_2, b_1, b_2, n_i1, n_i2)
     _zoned_rectangle_domain.append(z)""")], "R03.2"),
+    Variant("c_shape: top row one borehole too long", "break", [(COORD, "    for i in range(1, n_x_2 + 1):\n        c.append((i * b_x, y_loc))", "    for i in range(1, n_x_2 + 2):\n        c.append((i * b_x, y_loc))")], "R03.5"),
+    Variant("lop_u: right leg repeats the corner", "break", [(COORD, "    for j in range(1, n_y_2):\n        _lop_u.append((x_loc, j * b_y))", "    for j in range(0, n_y_2):\n        _lop_u.append((x_loc, j * b_y))")], "R03.5"),
+    Variant("zoned_rectangle: interior grid starts on the perimeter", "break", [(COORD, "    zoned.extend(rectangle(n_ix, n_it, bix, biy, origin=(bix, biy)))", "    zoned.extend(rectangle(n_ix, n_it, bix, biy, origin=(0, 0)))")], "R03.5"),
+    Variant("open_rectangle: right side placed at n * spacing", "break", [(COORD, "            open_r.append(((num_bh_x - 1) * spacing_x, j * spacing_y))", "            open_r.append((num_bh_x * spacing_x, j * spacing_y))")], "R03.5"),
     Variant("rectangular: canonical aliases renamed", "benign",
             [(DOM, """    if length_x >= length_y:
         length_1 = length_x
